@@ -156,6 +156,14 @@ def check_name(case):
     ok_name = valid_name(name)
     out.cls = "%s/%s" % (side, "valid-name" if ok_name else "invalid-name")
     desc = {"__jsonclass__": [name, args]}
+    if not ok_name:
+        # non-initial state: the same translator has just resolved the name that remains when the invalid characters are dropped
+        cleaned = "".join(c for c in name if c in VALID_CHARS)
+        if cleaned and cleaned != name and "." in cleaned.strip("."):
+            try:
+                jsonclass.load({"__jsonclass__": [cleaned, args]})
+            except Exception:
+                pass
     if side == "jsonclass.load":
         with recording() as rec:
             try:
